@@ -192,7 +192,7 @@ class C32(core.Check):
     GEN = []
     PROPS = 'props/C32.v'
     MODEL_IMPORTS = ['model.Flood']
-    QUICK_CASES = 700
+    QUICK_CASES = 500
     THOROUGH_CASES = 6000
     TRUSTED = ['hand model model/Flood.v of Graphics.paint_/_flood_fill/_scanline_until/_check_scanline for the '
                'solid-colour case (no tile pattern, no background pattern), tied by correspondence on the '
@@ -415,6 +415,11 @@ class C32(core.Check):
         if scr not in ss:
             s = common.new_session(video='vga')
             s.execute('SCREEN %d' % scr)
+            try:
+                # the flood fill sleeps one tick every fourth scanline (interruptible PAINT): not under test
+                s._impl.queues.tick = 0
+            except AttributeError:
+                pass
             ss[scr] = s
         return ss[scr]
 
@@ -458,7 +463,12 @@ class C32(core.Check):
             msg = s.execute(self.setup_stmt(case))
             if msg:
                 raise RuntimeError('setup failed: %r' % msg)
-            raw[0:sh, 0:sw] = 0
+            fast = isinstance(getattr(raw, '_rows', None), list) and len(raw._rows) == sh
+            if fast:
+                for r in raw._rows:
+                    r[:] = bytes(sw)
+            else:
+                raw[0:sh, 0:sw] = 0
             rx, ry = case['rect']
             rows = case['rows']
             rh, rw = len(rows), len(rows[0])
@@ -470,15 +480,16 @@ class C32(core.Check):
             e, f = int(s.evaluate('E')), int(s.evaluate('F'))
             if f != 1:
                 raise RuntimeError('program did not finish (E=%d F=%d)' % (e, f))
-            allrows = raw.to_rows()
+            allrows = raw._rows if fast else [bytearray(r) for r in raw.to_rows()]
+            assert len(allrows) == sh and all(len(r) == sw for r in allrows)
             after = [list(allrows[ry + j][rx:rx + rw]) for j in range(rh)]
             outside = 0
             for y in range(sh):
                 r = allrows[y]
-                if ry <= y < ry + rh:
-                    outside += sum(1 for v in r[:rx] if v) + sum(1 for v in r[rx + rw:] if v)
-                elif any(r):
-                    outside += sum(1 for v in r if v)
+                nz = sw - r.count(0)
+                if nz and ry <= y < ry + rh:
+                    nz -= rw - r[rx:rx + rw].count(0)
+                outside += nz
             return e, rows, after, outside
 
     def impl(self, case):
@@ -522,15 +533,13 @@ class C32(core.Check):
         scr = case['scr']
         if scr == 0:
             return None if out[:2] == [1, 5] else 'PAINT in text mode did not raise Illegal function call'
-        if out[-1] != 0:
-            return '%d pixels outside the compared rectangle changed' % out[-1]
         sw, sh, na = MODES[scr]
         rows = case['rows']
         rh, rw = len(rows), len(rows[0])
         if out[0] != 0:
-            # an error must not paint anything (the rest of the screen was checked above); errors themselves are
-            # compared with the model, the property does not speak about them
-            return None
+            # an error must not paint anything; the errors themselves are compared with the model, the property
+            # does not speak about them
+            return ('%d pixels changed although PAINT raised an error' % out[-1]) if out[-1] else None
         after = out[1:-1]
         if len(after) != rh * rw:
             return 'malformed output'
@@ -556,6 +565,8 @@ class C32(core.Check):
         region = bfs_region(before, bounds, seed, border)
         if any(not (rx <= x < rx + rw and ry <= y < ry + rh) for x, y in region):
             return 'generator error: region leaves the compared rectangle'
+        if out[-1] != 0:
+            return '%d pixels outside the compared rectangle (hence outside the region) changed' % out[-1]
         prefilled = any(before(x, y) == fill for x, y in region)
         for j in range(rh):
             for i in range(rw):
@@ -581,14 +592,27 @@ class C32(core.Check):
         return case
 
     def shrink_candidates(self, case):
-        """blank single non-zero cells / whole rows of the picture (shape and viewport stay)"""
+        """blank whole rows / single non-zero cells of the picture (shape and viewport stay; the wall ring of a
+        case without VIEW is kept, otherwise the region would leave the compared rectangle)"""
         rows = case['rows']
-        cells = [(j, i) for j, r in enumerate(rows) for i, a in enumerate(r) if a]
-        for j in range(len(rows)):
-            if any(rows[j]):
+        if case['scr'] == 0:
+            return
+        rh, rw = len(rows), len(rows[0])
+        sw, sh, _ = MODES[case['scr']]
+        rx, ry = case['rect']
+
+        def keep(j, i):
+            if case['view'] is not None:
+                return False
+            return ((j == 0 and ry > 0) or (j == rh - 1 and ry + rh < sh) or
+                    (i == 0 and rx > 0) or (i == rw - 1 and rx + rw < sw))
+        for j in range(rh):
+            if any(rows[j][i] and not keep(j, i) for i in range(rw)):
                 d = dict(case)
-                d['rows'] = [list(r) if k != j else [0] * len(r) for k, r in enumerate(rows)]
+                d['rows'] = [list(r) if k != j else [a if keep(j, i) else 0 for i, a in enumerate(r)]
+                             for k, r in enumerate(rows)]
                 yield d
+        cells = [(j, i) for j, r in enumerate(rows) for i, a in enumerate(r) if a and not keep(j, i)]
         for j, i in cells[:200]:
             d = dict(case)
             d['rows'] = [list(r) for r in rows]
